@@ -210,9 +210,11 @@ class HSTRP(LoggingTrait, BytesInterface):
         if len(data) < 6:
             # minimum of 6 bytes in general is required for HSTRP PDU
             return None
-        assert (
-            data[0:2] == HSTRP.HEADER
-        ), f"HSTRP packet got wrong prefix, expected b'2B' got {data[0:2]}"
+        if data[0:2] != HSTRP.HEADER:
+            # not an assert statement: under python -O any datagram would pass for HSTRP
+            raise AssertionError(
+                f"HSTRP packet got wrong prefix, expected b'2B' got {data[0:2]}"
+            )
 
         pkt_type: HSTRPPacketType = HSTRPPacketType.from_bytes(data[3:4])
         options = (
